@@ -243,6 +243,11 @@ def named_shapes(p):
         "tail-into-collider": g([(i, i + 1) for i in range(0, p - 2)] + [(p - 1, p - 2)]),
         "collider-tail-shortcut": g([(0, 2), (1, 2)] + [(i, i + 1) for i in range(2, p - 1)] + [(2, p - 1)]),
         "inverted-tree": g([(i, (i - 1) // 2) for i in range(1, p)]),
+        # a long shortcut-free path with a small gadget at one end (reachability over many edges decides what happens in the gadget)
+        "chain-ending-in-triangle": g([(i, i + 1) for i in range(p - 2)] + [(p - 3, p - 1), (p - 2, p - 1)]),
+        "chain-starting-with-triangle": g([(0, 1), (0, 2), (1, 2)] + [(i, i + 1) for i in range(2, p - 1)]),
+        "chain-ending-in-fork": g([(i, i + 1) for i in range(p - 3)] + [(p - 3, p - 2), (p - 3, p - 1)]),
+        "chain-ending-in-collider-pair": g([(i, i + 1) for i in range(p - 3)] + [(p - 3, p - 1), (p - 2, p - 1)]),
     }
     return shapes
 
